@@ -190,3 +190,21 @@ MUTANTS.update({
     ('shutdown-speed-zero', [(W, "          UPDATE_BUCKET.setCapacityAndFillRate(shut, shut)", "          UPDATE_BUCKET.setCapacityAndFillRate(shut, shut)\n          raise KeyError('x')")]),
   ],
 })
+
+MUTANTS.update({
+  'C07': [
+    ('popleft-to-pop', [(CL, "          yield self.queue.popleft()", "          yield self.queue.pop()")]),
+    ('normal-appendleft', [(CL, "  def enqueue(self, metric, datapoint):\n    self.queue.append((metric, datapoint))", "  def enqueue(self, metric, datapoint):\n    self.queue.appendleft((metric, datapoint))")]),
+    ('no-clear-after-reinject', [(CL, "          state.events.metricGenerated(metric, datapoint)\n      self.queue.clear()\n\n  def disconnect", "          state.events.metricGenerated(metric, datapoint)\n\n  def disconnect")]),
+    ('clear-before-reinject', [(CL, "      metrics = list(self.queue)\n      log.clients(\"Re-injecting %d metrics from %s\" % (len(metrics), self))\n      for metric, datapoint in metrics:\n          state.events.metricGenerated(metric, datapoint)\n      self.queue.clear()\n\n  def disconnect",
+                                "      self.queue.clear()\n      metrics = list(self.queue)\n      log.clients(\"Re-injecting %d metrics from %s\" % (len(metrics), self))\n      for metric, datapoint in metrics:\n          state.events.metricGenerated(metric, datapoint)\n\n  def disconnect")]),
+    ('drop-counted-but-enqueued', [(CL, "      else:\n        instrumentation.increment(self.fullQueueDrops)\n    else:", "      else:\n        instrumentation.increment(self.fullQueueDrops)\n        self.enqueue(metric, datapoint)\n    else:")]),
+    ('drop-not-counted', [(CL, "      else:\n        instrumentation.increment(self.fullQueueDrops)\n    else:", "      else:\n        pass\n    else:")]),
+    ('disconnect-immediately', [(CL, "    self.queueEmpty.addCallbacks(lambda result: self.stopConnecting(), log.err)\n", "    self.stopConnecting()\n")]),
+    ('queue-reset-on-connection-lost', [(CL, "    self.connectedProtocol = None\n\n    self.destinationDown(self.destination)", "    self.connectedProtocol = None\n    if len(self.queue) > 2:\n      self.queue.clear()\n\n    self.destinationDown(self.destination)")]),
+    ('drop-at-max-queue-size', [(CL, "      if self.queueSize < SEND_QUEUE_HARD_MAX:\n        self.enqueue(metric, datapoint)", "      if self.queueSize < settings.MAX_QUEUE_SIZE - 1:\n        self.enqueue(metric, datapoint)")]),
+    ('resend-on-reconnect', [(CL, "    return list(yield_max_datapoints())", "    got = list(yield_max_datapoints())\n    if len(got) == 3 and getattr(self, '_dup', None) != got[0]:\n      self._dup = got[0]\n      self.queue.appendleft(got[0])\n    return got")]),
+    ('fake-buffer-clear-first', [(CL, "  def reinjectDatapoints(self):\n    metrics = list(self.queue)", "  def reinjectDatapoints(self):\n    metrics = list(self.queue)[1:]")]),
+    ('line-sent-counter-off', [(CL, "    instrumentation.increment(self.sent, len(datapoints))", "    instrumentation.increment(self.sent, 1)")]),
+  ],
+})
